@@ -133,7 +133,7 @@ TimeBucket(axis, t) ==
     [] axis = "month"       -> BucketMonth(t)
     [] axis = "week"        -> BucketWeek(t)
     [] axis = "day"         -> BucketDay(t)
-    [] axis = "timeofday"   -> HourOf(t)
+    [] axis = "timeofday"   -> SecOfDay(t)                 \* the time of day itself (runs at 00:00 and 00:30 are different slices); labelled in hours
     [] axis = "dayofyear"   -> DayOfLeapYear(DayOf(t))     \* envelope: any strictly increasing numbering by (month, day)
     [] axis = "dayofmonth"  -> CivilFromDays(DayOf(t)).d
     [] axis = "monthofyear" -> CivilFromDays(DayOf(t)).m
